@@ -1,6 +1,22 @@
 """C14 type conversions exact on their domain, reject the rest - structural clauses on the type constructor overloads."""
-import re
-import lib, common
+import re, json, os, sys
+import lib, common, mirq
+
+TPFX = "rscel::context::type_funcs::"
+ROWS = os.path.join(lib.VERIF, "tables", "typefunc_rows.json")
+_DROP = ("Try::branch", "FromResidual::from_residual", "CelError::", "Option::", "Result::", "format", "must_use", "Arguments::", "Argument::", "rt::", "exchange_malloc")
+
+
+def tf_rows(F):
+    rows = {}
+    for b in F.find(r"^rscel::context::type_funcs::\w+::(methods::\w+|\w+)(::\{closure#\d+\})*$", "rscel"):
+        if b.path.endswith("::dispatch") or "::dispatch::" in b.path or b.path.endswith(("construct_type", "load_default_types")):
+            continue
+        q = mirq.BodyQ(b)
+        calls = sorted(e for e in mirq.call_exprs(q, drop=None) if not e.startswith(_DROP))
+        casts = sorted("%s->%s" % (fr, to) for (ck, fr, to), n in common.casts_of(b).items() for _ in range(n))
+        rows[b.path[len(TPFX):]] = {"calls": calls, "casts": casts}
+    return rows
 
 # casts that are the documented conversion itself
 CONV_OK = {("i64", "f64"): "int -> nearest double", ("u64", "f64"): "uint -> nearest double",
@@ -37,6 +53,116 @@ def run(chk, tier):
             chk.ok("R14.2", "%s->%s" % (name, mod))
         else:
             chk.bad("R14.2", "%s->%s" % (name, mod), "construct_type does not reach %s::methods::dispatch" % mod, ct.file)
+    # ---- R14.4 generated dispatch of the constructors
+    chk.rule("R14.4", "each constructor overload is selected by exactly the argument variants of its signature; other shapes are errors")
+    nd = 0
+    for b in sorted(F.bodies.values(), key=lambda x: x.path):
+        if b.pkg != "rscel" or not b.path.endswith("::methods::dispatch") or not b.path.startswith(TPFX):
+            continue
+        r = common.dispatch_table(F, b)
+        if r is None:
+            chk.bad("R14.4", "dispatch|" + b.path[len(TPFX):], "generated dispatch no longer matches on the argument tuple", b.file)
+            continue
+        width, drows = r
+        for pth, slots in drows:
+            exp = common.expected_slots(F, pth, width)
+            nd += 1
+            if exp == slots:
+                chk.ok("R14.4", "dispatch|" + pth[len(TPFX):], slots)
+            else:
+                chk.bad("R14.4", "dispatch|" + pth[len(TPFX):], "%s is selected for %s but its signature demands %s" % (pth[len(TPFX):], slots, exp), b.file)
+    chk.floor("R14.4", "dispatched constructor overloads", nd, 40)
+    # ---- R14.5 name table of construct_type: the arm for each documented name calls the constructor of that name
+    chk.rule("R14.5", "construct_type maps every documented type name to the constructor of the same name (float and double both to double)")
+    qc = mirq.BodyQ(ct)
+    eqs = []
+    for i, t, pth in qc.call_sites(r"PartialEq for str>::eq$|str::traits::<impl .*PartialEq for str>::eq$"):
+        lit = None
+        for a in t["args"]:
+            o = qc.origin(a)
+            if o[0] == "const":
+                m_ = re.match(r'^(?:const )?"(.*)"$', o[1].get("repr", ""), re.S)
+                if m_:
+                    lit = m_.group(1)
+        if lit is not None:
+            eqs.append((i, lit))
+    got = {}
+    for i, t, pth in qc.call_sites(r"type_funcs::\w+::methods::dispatch$"):
+        for bi, lit in eqs:
+            sw = None
+            cur = ct.blocks[bi]["term"]["t"]
+            for _ in range(4):
+                t2 = ct.blocks[cur]["term"]
+                if t2 and t2["k"] == "switch":
+                    sw = t2
+                    break
+                s_ = ct.succs(cur)
+                if len(s_) != 1:
+                    break
+                cur = s_[0]
+            if sw is None:
+                continue
+            zero = [c_[1] for c_ in sw["cases"] if int(c_[0]) == 0]
+            true_t = sw["otherwise"] if zero else [c_[1] for c_ in sw["cases"] if int(c_[0]) == 1][0]
+            false_t = zero[0] if zero else sw["otherwise"]
+            if (true_t == i or ct.dominates(true_t, i)) and not (false_t == i or ct.dominates(false_t, i)):
+                got[lit] = re.search(r"type_funcs::(\w+)::methods", pth).group(1)
+    if got == CTORS:
+        chk.ok("R14.5", "construct_type names", got)
+    else:
+        chk.bad("R14.5", "construct_type names", "construct_type maps %s, documented table is %s" % (sorted(got.items()), sorted(CTORS.items())), ct.file)
+    # ---- R14.6 primitive rows of the overloads (reviewed table)
+    chk.rule("R14.6", "every constructor overload applies the reviewed primitive (identity, exact cast, str::parse of the target type, try_from, from_utf8 ..) to its argument")
+    rows = tf_rows(F)
+    frozen = json.load(open(ROWS))["rows"]
+    for name in sorted(set(rows) | set(frozen)):
+        if name not in frozen:
+            if "{closure" not in name:
+                chk.bad("R14.6", "row|" + name, "new conversion overload / helper %s is not in the reviewed table" % name, "rscel/src/context/type_funcs")
+            continue
+        if name not in rows:
+            chk.bad("R14.6", "row|" + name, "conversion overload %s no longer exists: the accepted source types changed" % name, "rscel/src/context/type_funcs")
+            continue
+        if rows[name] == frozen[name]:
+            chk.ok("R14.6", "row|" + name, rows[name]["calls"][:2] or "identity / cast only")
+        else:
+            chk.bad("R14.6", "row|" + name, "%s no longer converts with its documented primitive: now %s, reviewed %s" % (name, rows[name], frozen[name]), "rscel/src/context/type_funcs")
+    chk.floor("R14.6", "constructor overload rows", len(rows), 45)
+    # ---- R14.7 f-strings
+    chk.rule("R14.7", "f-string lowering: every segment (literal or embedded expression, constant or not) is pushed and passed through string(); FMTSTRING(n) concatenates the n results in source order")
+    import tplrules, semtables, vmtable
+    db = tplrules.load(F)
+    nf = 0
+    for p in db["roots"].get("parse_primary", []):
+        if p["kind"] == "code" and any(it["k"] == "op" and it["name"] == "FmtString" for it in p["items"]):
+            nf += 1
+            its = p["items"]
+            groups = its[:-1]
+            okf = len(groups) % 3 == 0 and len(groups) > 0
+            for g in range(0, len(groups) - 2, 3):
+                a_, b_, c_ = groups[g], groups[g + 1], groups[g + 2]
+                okf = okf and a_["k"] == "op" and a_["name"] == "Push" and b_["k"] == "op" and b_["name"] == "Push" and b_["args"] == ["CelValue::Ident('string')"] \
+                    and c_["k"] == "op" and c_["name"] == "Call" and c_["args"] == ["1"]
+                seg = a_["args"][0] if a_.get("args") else ""
+                okf = okf and (seg.startswith("CelValue::String(") and "FStringLit" in seg or seg.startswith("CelValue::ByteCode("))
+            last = its[-1]
+            okf = okf and "Vec::len(" in " ".join(last.get("args", [])) and "FStringLit" in " ".join(last.get("args", []))
+            key = "fstring|" + p["text"][:70]
+            if okf:
+                chk.ok("R14.7", key)
+            else:
+                chk.bad("R14.7", key, "an f-string must lower to, per segment, PUSH segment; PUSH ident string; CALL 1, then FMTSTRING(number of segments); found %s - a segment rendered any other way (e.g. formatted by the compiler) differs from string(e)" % p["text"][:260], "rscel/src/compiler/compiler.rs (parse_primary)")
+        elif p["kind"] == "const" and "FStringLit" in json.dumps(p.get("cond")) and "FStringLit" in str([c[2] for c in p["cond"]]):
+            chk.bad("R14.7", "fstring|folded", "an f-string is folded to a constant by the compiler: %s" % p["text"][:120], "rscel/src/compiler/compiler.rs (parse_primary)")
+    chk.floor("R14.7", "f-string templates", nf, 3)
+    vm = vmtable.VM(F)
+    rowsf = semtables.arm_paths(F, vm, "FmtString") or []
+    pushes = sorted(set(e[1] for _, ev in rowsf for e in ev if e[0] == "push"))
+    wantp = ["CelValue::String([])", "CelValue::String([pop1.String.0])", "CelValue::String([pop2.String.0, pop1.String.0])", "CelValue::String([pop3.String.0, pop2.String.0, pop1.String.0])"]
+    if pushes == sorted(wantp):
+        chk.ok("R14.7", "FMTSTRING concatenates in source order", wantp[-1])
+    else:
+        chk.bad("R14.7", "FMTSTRING concatenates in source order", "the VM's FMTSTRING arm builds %s" % pushes, vm.b.file)
     for mod, ty in (("int_type", "i64"), ("uint_type", "u64"), ("double_type", "f64")):
         hit = False
         for b in F.find(r"^rscel::context::type_funcs::%s::methods::\w+" % mod, "rscel"):
@@ -48,7 +174,17 @@ def run(chk, tier):
         else:
             chk.bad("R14.3", mod, "%s: no overload parses text with str::parse::<%s>" % (mod, ty), "")
     return chk.finish(
-        "Every overload body of the ten type constructors (generated by #[dispatch]) is scanned for numeric casts and wrapping primitives; the "
-        "constructor table of construct_type is compared with the expected wiring. Decides: no conversion wraps; wiring. Does not decide the "
-        "round-trip equalities (std parse/format) or f-string lowering.",
-        ["rustc MIR", "Rust `as` float->int semantics (saturating truncation)"], ["default features"], technique="MIR cast rule over conversion overloads")
+        "Every overload body of the ten type constructors (generated by #[dispatch]) is scanned for numeric casts and wrapping primitives and compared with its reviewed "
+        "primitive row; the generated dispatch tables are compared with the overload signatures; construct_type's name table with the documented one; the f-string "
+        "template (from symbolic execution of the parser) with the per-segment string() lowering, and the VM's FMTSTRING arm with in-order concatenation. Decides: no "
+        "conversion wraps, wiring, shapes, primitives, f-string lowering. Does not decide the round-trip equalities themselves (std parse/format).",
+        ["rustc MIR", "Rust `as` float->int semantics (saturating truncation)", "tables/typefunc_rows.json (reviewed)", "symex summaries for the f-string template"], ["default features"],
+        technique="MIR cast / dispatch-table / primitive-row rules over the conversion overloads + f-string template from symbolic execution")
+
+
+if __name__ == "__main__":
+    if "--freeze" in sys.argv:
+        F = lib.get_facts()
+        json.dump({"_doc": "primitive rows of the type constructor overloads (expression trees over the parameters + numeric casts); generated by "
+                           "`python3 rules/C14.py --freeze`, reviewed by reading each overload against USAGE.md", "rows": tf_rows(F)}, open(ROWS, "w"), indent=1, sort_keys=True)
+        print("wrote", ROWS)
